@@ -74,6 +74,10 @@ impl<'a> Parser<'a> {
     }
     /// statement-level invariant
     spec fn sinv(&self) -> bool { self.pinv() && self.vs_spans_valid() }
+    /// the scope representation only grew: what `o` held is still there, in place
+    spec fn vars_ext(&self, o: &Self) -> bool {
+        self.vars.map.values@.len() >= o.vars.map.values@.len() && self.vars.map.values@.take(o.vars.map.values@.len() as int) =~= o.vars.map.values@
+    }
     /// what parsing a block leaves alone: the text, the header, the open scopes (a nested block's own scope is gone again)
     spec fn block_frame(&self, o: &Self) -> bool {
         &&& self.input == o.input && self.signals == o.signals
@@ -355,5 +359,14 @@ proof fn lemma_listed_vs(m: Map<&str, (core::ops::Range<usize>, Expr)>, es: Seq<
         assert(l0[j].0.name@ == k@);
         let i = lemma_perm_index(l0, l, j);
         assert(l[i].0.name@ == k@);
+    }
+}
+
+impl<'a> Parser<'a> {
+    /// (scope contract) same token sequence, further along; the open scopes are the same
+    spec fn scope_frame(&self, o: &Self) -> bool {
+        &&& self.input == o.input && self.signals == o.signals
+        &&& self.iter.all() == o.iter.all() && self.iter.pos() >= o.iter.pos()
+        &&& self.vars.map.wf() && self.vars.map.frame_stack@ == o.vars.map.frame_stack@
     }
 }
